@@ -16,6 +16,7 @@ type fhandle struct {
 	ino    *inode
 	path   string
 	off    int
+	symOff *Term // non-nil: the position is this symbolic value, known to lie beyond the end of the file (off is a representative)
 	closed bool
 	rd, wr bool
 	app    bool
@@ -56,6 +57,20 @@ func cleanPath(v value) string {
 		panic(unsupported("symbolic file path"))
 	}
 	return path.Clean(s)
+}
+
+// settle re-validates a symbolic beyond-EOF position against the current file length (the file
+// may have grown since the seek) and makes it concrete when it is no longer beyond the end.
+func (h *fhandle) settle(r *Run) {
+	if h.symOff == nil {
+		return
+	}
+	if r.decide(r.st.BvCmp(OBvSlt, BV(64, uint64(len(h.ino.data))), h.symOff)) {
+		h.off = len(h.ino.data) + 1
+		return
+	}
+	h.off = int(r.concreteInt(h.symOff, "file position"))
+	h.symOff = nil
 }
 
 func (fs *fsModel) logOp(op fsOp) {
@@ -420,6 +435,10 @@ func registerOSIntrinsics(e *Engine) {
 	in["(*os.File).Name"] = func(fr *frame, args []value) value { return fileArg(args[0]).path }
 	in["(*os.File).Write"] = func(fr *frame, args []value) value {
 		h := fileArg(args[0])
+		if h.symOff != nil {
+			h.off = int(fr.run().concreteInt(h.symOff, "write position"))
+			h.symOff = nil
+		}
 		off := h.off
 		if h.app {
 			off = len(h.ino.data)
@@ -467,6 +486,7 @@ func registerOSIntrinsics(e *Engine) {
 	}
 	in["(*os.File).Read"] = func(fr *frame, args []value) value {
 		h := fileArg(args[0])
+		h.settle(fr.run())
 		n, err := readAt(fr, h, args[1].([]value), h.off)
 		h.off += n
 		return tuple{BV(64, uint64(n)), err}
@@ -489,18 +509,38 @@ func registerOSIntrinsics(e *Engine) {
 		}
 		offT := args[1].(*Term)
 		wh := int(r.concreteInt(args[2].(*Term), "whence"))
-		off := int(r.concreteInt(offT, "seek offset"))
+		h.settle(r)
+		var base *Term
 		switch wh {
 		case 0:
+			base = BV(64, 0)
 		case 1:
-			off += h.off
-		case 2:
-			off += len(h.ino.data)
+			base = BV(64, uint64(h.off))
+			if h.symOff != nil {
+				base = h.symOff
+			}
+		default:
+			base = BV(64, uint64(len(h.ino.data)))
 		}
+		target := r.st.BvBin(OBvAdd, base, offT)
+		if !target.IsConst() {
+			// position classes: negative (error), inside the file (one path per value), beyond the
+			// end (every such position behaves alike for reads: one symbolic representative)
+			if r.decide(r.st.BvCmp(OBvSlt, target, BV(64, 0))) {
+				return tuple{BV(64, 0), r.pathError("seek", h.path, mkError(fr, "invalid argument").(iface))}
+			}
+			if !r.decide(r.st.BvCmp(OBvSle, target, BV(64, uint64(len(h.ino.data))))) {
+				h.off = len(h.ino.data) + 1
+				h.symOff = target
+				return tuple{target, iface{}}
+			}
+		}
+		off := int(r.concreteInt(target, "seek offset"))
 		if off < 0 {
 			return tuple{BV(64, 0), r.pathError("seek", h.path, mkError(fr, "invalid argument").(iface))}
 		}
 		h.off = off
+		h.symOff = nil
 		return tuple{BV(64, uint64(off)), iface{}}
 	}
 	in["(*os.File).Sync"] = func(fr *frame, args []value) value {
